@@ -822,6 +822,8 @@ def e2e(ctx, defs):
                 ctx.count("known:placeholder-key")
         # (6) same-process history
         history(ctx, defs, run)
+        # (7) names equal up to case / whitespace / unicode form (LESSONS 3)
+        near_names(ctx, defs, run)
     finally:
         run.finish()
 
@@ -967,6 +969,85 @@ def history(ctx, defs, run):
             ctx.violate("C18:history:same-manager-same-files", "one InputManager reading the same files twice returns different parameters",
                         as_input(files, None, "valid"))
         ctx.count("history:same-manager-twice:" + r[0])
+
+
+def name_variants(nm):
+    """names that a sloppy comparison would identify with `nm`: other case, surrounding blanks, unicode
+    compatibility forms - all DIFFERENT strings, none of them reserved"""
+    out = [nm.lower(), nm.upper(), nm.swapcase(), nm.capitalize(), nm.title(), nm + " ", " " + nm, nm + "\t",
+           nm.replace("fi", "\ufb01"), "".join(chr(ord(c) + 0xFEE0) if "!" <= c <= "~" else c for c in nm[:1]) + nm[1:],
+           nm.replace("e", "e\u0301") if "e" in nm else nm + "\u00a0"]
+    seen, res = {nm}, []
+    for v in out:
+        if v not in seen and v.strip().lower() not in ("none", "null", "nan") and v not in T.PLACEHOLDERS:
+            seen.add(v)
+            res.append(v)
+    return res
+
+
+def near_names(ctx, defs, run):
+    """labels, method names and program names that differ from an existing name only by case / blanks /
+    unicode form.  Oracle unchanged: a label is served by the file whose method_name EQUALS it - a near
+    miss is a missing method; two files with near-equal names are two methods / programs, each label
+    resolves to exactly its own file in every file order."""
+    rng = ctx.rng
+    df = T.DEF_FILES
+    for k in range(ctx.pick(14, 120)):
+        for _ in range(60):
+            files = gen_scenario(rng, defs, rng.choice([2, 3]))
+            meths = [(i, nm) for i, (kk, nm, _) in enumerate(files) if kk == "method" and any(c.isalpha() for c in nm)]
+            progs = [i for i, (kk, _, f) in enumerate(files) if kk == "program"]
+            refs = [(pi, mi, nm) for pi in progs for (mi, nm) in meths if nm in files[pi][2].get("method_labels", [])]
+            if refs:
+                break
+        else:
+            continue
+        pi, mi, nm = rng.choice(refs)
+        var = rng.choice(name_variants(nm))
+        mode = k % 3
+        if mode == 0:
+            # (a) the label is a near miss of the only supplied method: a missing method, in every order
+            fs = [(kk, n2, dict(f)) for (kk, n2, f) in files]
+            fs[pi][2]["method_labels"] = [var if x == nm else x for x in fs[pi][2]["method_labels"]]
+            accepted = []
+            for order in orders(rng, len(fs), ctx.pick(5, 12)):
+                r = run.run_real([fs[i] for i in order], {"class": "near-name:label", "expect": "reject"})
+                if r[0] == "ok":
+                    accepted.append(order)
+            if accepted:
+                ctx.violate("C18:accepted:missing-method:near-name-label",
+                            f"label {var!r} is served although only a method named {nm!r} is supplied (names differ by case / blanks / unicode form)",
+                            as_input(fs, accepted[0], "near-name:label"))
+            ctx.nontrivial.add(("near-name", "label", var == nm.lower(), bool(accepted)))
+        elif mode == 1:
+            # (b) a second method whose name is a near twin of the first, other values; both or one referenced
+            (_, _, f) = files[mi]
+            dep = rng.choice(["mobile", "stationary"])
+            g = G.user_subset(rng, defs[df[dep]], rng.choice([0.3, 0.7]), skip=G.SPECIAL)
+            g.update({"parameter_level": "methods", "method_name": var, "deployment_type": dep})
+            fs = [(kk, n2, dict(ff)) for (kk, n2, ff) in files] + [("method", var, shuffled(rng, g))]
+            if rng.random() < 0.5:
+                fs[pi][2]["method_labels"] = list(fs[pi][2]["method_labels"]) + [var]
+            results = []
+            for order in orders(rng, len(fs), ctx.pick(8, 24)):
+                results.append((order, run.run_real([fs[i] for i in order], {"class": "valid", "n": len(fs)})))
+            oracle_valid(ctx, defs, fs, results)
+            ctx.nontrivial.add(("near-name", "twin-methods", len(fs), var in fs[pi][2]["method_labels"]))
+        else:
+            # (c) a second program whose name is a near twin of the first / of the baseline name
+            (_, pn, f) = files[pi]
+            pvar = rng.choice(name_variants(pn) or [pn + " "])
+            g = G.user_subset(rng, defs[df["programs"]], 0.6, skip=G.SPECIAL)
+            g.update({"parameter_level": "programs", "program_name": pvar, "method_labels": [nm] if rng.random() < 0.5 else []})
+            fs = [(kk, n2, dict(ff)) for (kk, n2, ff) in files] + [("program", pvar, shuffled(rng, g))]
+            for j, (kk, n2, ff) in enumerate(fs):
+                if kk == "sim":
+                    ff["baseline_program"] = rng.choice([pn, pvar])
+            results = []
+            for order in orders(rng, len(fs), ctx.pick(8, 24)):
+                results.append((order, run.run_real([fs[i] for i in order], {"class": "valid", "n": len(fs)})))
+            oracle_valid(ctx, defs, fs, results)
+            ctx.nontrivial.add(("near-name", "twin-programs", len(fs)))
 
 
 def stage(ctx, name, fn, *a):
